@@ -9,6 +9,10 @@ import (
 	"github.com/go-git/go-billy/v6"
 )
 
+// tmpPath is the directory billy's TempFile uses when it is given no
+// directory (util.TempFile on a chrooted filesystem).
+const tmpPath = ".tmp"
+
 // RepositoryFilesystem is a billy.Filesystem compatible object wrapper
 // which handles dot-git filesystem operations and supports commondir according to git scm layout:
 // https://github.com/git/git/blob/master/Documentation/gitrepository-layout.adoc
@@ -62,10 +66,19 @@ func (fs *RepositoryFilesystem) mapToRepositoryFsByPath(path string) billy.Files
 	// Determine dot-git root by first path element.
 	// There are some elements which should always use commondir when commondir defined.
 	// Usual dot-git root will be used for the rest of files.
-	switch strings.Split(cleanPath, string(filepath.Separator))[0] {
+	first := strings.Split(cleanPath, string(filepath.Separator))[0]
+	switch first {
 	case objectsPath, refsPath, packedRefsPath, configPath, branchesPath, hooksPath, infoPath, remotesPath, logsPath, shallowPath, worktreesPath:
 		return fs.commonDotGitFs
+	case tmpPath:
+		// Temporary files without a directory of their own are created in the
+		// common dir (see TempFile); follow them there.
+		return fs.commonDotGitFs
 	default:
+		// Same, on filesystems that put such a file next to packed-refs.
+		if strings.HasPrefix(first, tmpPackedRefsPrefix) {
+			return fs.commonDotGitFs
+		}
 		return fs.dotGitFs
 	}
 }
@@ -106,7 +119,16 @@ func (fs *RepositoryFilesystem) Join(elem ...string) string {
 }
 
 // TempFile creates a temporary file in the appropriate filesystem.
+//
+// A temporary file that is given no directory is what DotGit uses to rewrite
+// packed-refs, which lives in the common dir. It must be created there: the
+// Rename that puts it in place cannot cross from the worktree's own git dir
+// into the common dir, and would otherwise leave the new packed-refs in
+// worktrees/<name>/, where nothing reads it.
 func (fs *RepositoryFilesystem) TempFile(dir, prefix string) (billy.File, error) {
+	if dir == "" && fs.commonDotGitFs != nil {
+		return fs.commonDotGitFs.TempFile(dir, prefix)
+	}
 	return fs.mapToRepositoryFsByPath(dir).TempFile(dir, prefix)
 }
 
